@@ -72,6 +72,23 @@ def monitor(ctx, extended=False):
         if not b >= prev or (i > 0 and not b > prev):
             ctx.violation(f'beta not increasing at Arel {a}', {'Arel': a}, key='monotone')
         prev = b
+    # the half-angle the geometry functions actually use: equal to the table lookup and increasing, also in the thin slivers next to both ends
+    # (log-spaced: the outermost table segments are 7e-5 wide)
+    sweep = sorted({i / N for i in range(0, N + 1, 10)} | {10 ** (-8 + 6 * j / 600) for j in range(601)} | {1 - 10 ** (-8 + 6 * j / 600) for j in range(601)} | {0.0, 1.0})
+    prevb = None
+    for a in sweep:
+        ctx.count('evaluations')
+        try:
+            b = St.beta(Cvb * a)
+        except Exception as e:   # noqa
+            ctx.violation(f'beta(Cvs = Cvb * {a!r}) raised {type(e).__name__}: {e}', {'Arel': a}, key='beta-function')
+            continue
+        want = Arel_to_beta[Cvb * a / Cvb]
+        if b != want:
+            ctx.violation(f'beta(Cvs = Cvb * {a!r}) = {b!r} is not the tabulated half-angle {want!r}', {'Arel': a}, key='beta-function')
+        if prevb is not None and not b >= prevb[1]:
+            ctx.violation(f'half-angle falls from {prevb[1]!r} at Arel {prevb[0]!r} to {b!r} at Arel {a!r}', {'Arel': [prevb[0], a]}, key='monotone')
+        prevb = (a, b)
     if not (Arel_to_beta[0.0] == 0.0 and abs(Arel_to_beta[1.0] - math.pi) < 1e-7):
         ctx.violation('table does not run from 0 to pi', {}, key='table')
     ctx.stats['worst_node_error'] = worst_node
